@@ -756,6 +756,8 @@ func (g *G) diffItem() DiffItem {
 		typ = cand[g.R.Intn(len(cand))]
 	} else if g.Only == "" {
 		typ = g.R.PickS("create", "modify", "delete")
+	} else if strings.HasPrefix(g.Only, "diff.actions.container") {
+		typ = "modify" // the container features live in old/new
 	}
 	it := DiffItem{Type: typ}
 	kind := ObjectKinds[1+g.R.Intn(3)]
@@ -809,10 +811,51 @@ func (g *G) DiffItems() []DiffItem {
 	return items
 }
 
-// Diff generates an osm.Diff value.
+// Diff generates an osm.Diff value. Create actions hold exactly one element (the documented
+// shape). The Old and New containers of modify and delete actions are general osm.OSM
+// containers: besides the old/new element they may carry top-level bounds, further elements,
+// changesets, notes and users (features diff.actions.container.*); like osmChange blocks they
+// carry no header attributes of their own.
 func (g *G) Diff() *osm.Diff {
 	d := &Doc{Kind: "diff", Items: g.DiffItems()}
-	return d.ExpectDiff()
+	df := d.ExpectDiff()
+	for i := range df.Actions {
+		a := &df.Actions[i]
+		if a.Type == osm.ActionCreate {
+			continue
+		}
+		for _, o := range []*osm.OSM{a.Old, a.New} {
+			g.container("diff.actions.container", o)
+		}
+	}
+	return df
+}
+
+// container adds the parts an osm.OSM can carry besides one element.
+func (g *G) container(prefix string, o *osm.OSM) {
+	if g.Has(prefix + ".bounds") {
+		o.Bounds = g.plainBounds()
+	}
+	if g.Has(prefix + ".elements") {
+		for i, n := 0, g.listLen(); i < n; i++ {
+			AddTo(o, g.Element())
+		}
+	}
+	if g.Has(prefix + ".changesets") {
+		for i, n := 0, g.listLen(); i < n; i++ {
+			o.Changesets = append(o.Changesets, g.Changeset())
+		}
+	}
+	if g.Has(prefix + ".notes") {
+		for i, n := 0, g.listLen(); i < n; i++ {
+			o.Notes = append(o.Notes, g.Note())
+		}
+	}
+	if g.Has(prefix + ".users") {
+		for i, n := 0, g.listLen(); i < n; i++ {
+			o.Users = append(o.Users, g.User())
+		}
+	}
 }
 
 // Value generates a value of any kind in Kinds; the result is a pointer.
